@@ -304,8 +304,35 @@ fn deep_nesting() -> impl Strategy<Value = RandCase> {
     })
 }
 
+/// `5w`, `5 w`, `5  w`, `5<tab>w` (alone, in a product, in a sum) must all be the same quantity, or all refused.
+fn check_gap(word: &String) -> CaseReport {
+    let db = shared_db();
+    let forms = |gap: &str| vec![format!("5{}{}", gap, word), format!("5{}{} * 2", gap, word), format!("1{g}{w} + 2{g}{w}", g = gap, w = word)];
+    let base = forms("");
+    let summary = |q: &str| match crate::tool::run(db, q) {
+        Ok(rs) => rs
+            .iter()
+            .map(|r| match r {
+                crate::tool::R::Ok(v) => format!("{} {:?}", v.value, v.unit),
+                crate::tool::R::Err { .. } => "error".to_string(),
+            })
+            .collect::<Vec<_>>()
+            .join(" | "),
+        Err(p) => format!("panic {}", p),
+    };
+    for gap in [" ", "  ", "\t", " \t "] {
+        for (k, q) in forms(gap).iter().enumerate() {
+            let (a, b) = (summary(&base[k]), summary(q));
+            if a != b {
+                return CaseReport::fail(q.clone(), "blank-between-number-and-unit-matters", json!({"glued": base[k], "glued_result": a, "with_blank": q, "result": b}));
+            }
+        }
+    }
+    CaseReport::pass(format!("5 {}", word), true, vec!["number-unit-gap"])
+}
+
 pub fn run_check(ctx: &Ctx) {
-    ctx.set_rule("all operator sequences over + - * / ^ up to the stated length x all binary tree shapes (Catalan), operands from fixed pools, each AST rendered in 32 ways (minimal / full / two redundant parenthesisations x 8 blank layouts incl. no blanks where allowed, double blanks, tabs, leading/trailing blanks; the random layouts spell the power operator `**` half of the time); plus `to`/round/floor/ceil variants (also with three-digit digits arguments), random deeper trees long flat expressions of 30-130 terms mixing calls and parenthesised groups, expressions nested 20-150 levels deep in parentheses and calls, and expressions with one gap of 2^16 or more blanks; oracle = reference evaluation of the AST; non-trivial = operators of >=2 precedence levels, or a grouped right operand, or nested parentheses, or a non-canonical rendering; distinct by query text");
+    ctx.set_rule("all operator sequences over + - * / ^ up to the stated length x all binary tree shapes (Catalan), operands from fixed pools, each AST rendered in 32 ways (minimal / full / two redundant parenthesisations x 8 blank layouts incl. no blanks where allowed, double blanks, tabs, leading/trailing blanks; the random layouts spell the power operator `**` half of the time); plus `to`/round/floor/ceil variants (also with three-digit digits arguments), random deeper trees long flat expressions of 30-130 terms mixing calls and parenthesised groups, expressions nested 20-150 levels deep in parentheses and calls, expressions with one gap of 2^16 or more blanks, and for every accepted vocabulary word the gap between a number and its unit (none, one, several blanks, tabs); oracle = reference evaluation of the AST; non-trivial = operators of >=2 precedence levels, or a grouped right operand, or nested parentheses, or a non-canonical rendering; distinct by query text");
     ctx.assume("blank policy: + - and `to` always have a blank on both sides; no blank is omitted next to a unit or phrase (a blank next to * or / ends a unit expression in this grammar)");
     let corpus: Vec<(String, QCase)> = load_corpus("C06");
     let cases: Vec<QCase> = corpus.into_iter().map(|c| c.1).collect();
@@ -405,6 +432,20 @@ pub fn run_check(ctx: &Ctx) {
         }
         ctx.run_list("huge-blank-runs", &cases, |c| judge(shared_db(), c), |c| to_json(c));
     }
+    // the gap between a number and its unit: for every vocabulary word the tool accepts, `5w`, `5 w`, `5  w` and
+    // `5<tab>w` — alone, in a product and in a sum — must be the same quantity (or all be refused)
+    {
+        let w = crate::gen::words();
+        let accepted: Vec<&str> = w.all.iter().filter(|x| x.tool_reading.is_some()).map(|x| x.word.text.as_str()).collect();
+        ctx.put("words_in_the_number_unit_gap_check", json!(accepted.len()));
+        ctx.run_enum(
+            "number-unit-gap",
+            accepted.len() as u64,
+            |i| Some(accepted[i as usize].to_string()),
+            |word| check_gap(word),
+            |word| json!({"gap_word": word}),
+        );
+    }
     ctx.run_gen(
         "deep-nesting",
         deep_nesting,
@@ -422,6 +463,10 @@ pub fn run_check(ctx: &Ctx) {
 }
 
 pub fn replay(ctx: &Ctx, case: &Value) {
+    if let Some(w) = case.get("gap_word").and_then(|v| v.as_str()) {
+        ctx.run_list("replay", &[w.to_string()], check_gap, |w| json!({"gap_word": w}));
+        return;
+    }
     let c: QCase = serde_json::from_value(case.clone()).expect("replay file holds a QCase");
     ctx.run_list("replay", &[c], |c| judge(shared_db(), c), |c| to_json(c));
 }
